@@ -19,6 +19,15 @@ import (
 	"verifharness/internal/vkit"
 )
 
+// fs prints floats for replays (JSON cannot carry NaN).
+func fs(xs ...float64) []string {
+	out := make([]string, len(xs))
+	for i, x := range xs {
+		out[i] = fmt.Sprintf("%v", x)
+	}
+	return out
+}
+
 // neighbours returns p and the points one ulp away in every coordinate.
 func neighbours(p s2.Point) []s2.Point {
 	out := []s2.Point{p}
@@ -74,19 +83,37 @@ func rectExcess(r s2.Rect, ll s2.LatLng) float64 {
 	return e
 }
 
+// nearPoleBounderKind: violations of bounds computed by RectBounder (loops, polygons, polylines,
+// bare chains) at points within 1e-6 rad of a pole share one root cause (the asin-based
+// latitude budget of AddPoint) and are reported under one kind.
+func nearPoleBounderKind(kind string, p s2.Point) bool {
+	switch kind {
+	case "Loop", "Polygon", "Polyline", "RectBounder", "RectBounder.edge-point":
+		return math.Abs(float64(s2.LatLngFromPoint(p).Lat)) > math.Pi/2-1e-6
+	}
+	return false
+}
+
 // checkContained runs the conclusion of the property for one contained point.
 func checkContained(c *vkit.Collector, kind string, b boundsOf, p s2.Point, replay map[string]interface{}) {
 	ll := s2.LatLngFromPoint(p)
 	rep := func() map[string]interface{} {
-		m := map[string]interface{}{"p": chainJSON([]s2.Point{p}), "latlng": []float64{float64(ll.Lat), float64(ll.Lng)}, "rect": []float64{b.rect.Lat.Lo, b.rect.Lat.Hi, b.rect.Lng.Lo, b.rect.Lng.Hi}}
+		m := map[string]interface{}{"p": chainJSON([]s2.Point{p}), "latlng": fs(float64(ll.Lat), float64(ll.Lng)), "rect": fs(b.rect.Lat.Lo, b.rect.Lat.Hi, b.rect.Lng.Lo, b.rect.Lng.Hi)}
 		for k, v := range replay {
 			m[k] = v
 		}
 		return m
 	}
 	c.Evals++
+	if rectHasNaN(b.rect) {
+		violate(c, "RectBounder.AddPoint.NaN", "the region's RectBound has a NaN endpoint", rep())
+		return
+	}
 	if !b.rect.ContainsLatLng(ll) {
 		k := kind + ".RectBound"
+		if nearPoleBounderKind(kind, p) {
+			k = "RectBounder.latBudget(near-pole)"
+		}
 		if lvl, ok := replay["level"]; ok && lvl == 0 {
 			k += "(level0)"
 		}
@@ -106,7 +133,11 @@ func checkContained(c *vkit.Collector, kind string, b boundsOf, p s2.Point, repl
 	if b.cells != nil && !covers(b.cells, p) {
 		violate(c, kind+".CellUnionBound", "a contained point is not covered by CellUnionBound()", rep())
 	}
-	oracleQueue(kind, p, b.rect, rep)
+	if nearPoleBounderKind(kind, p) {
+		oracleQueue("RectBounder.latBudget(near-pole)", p, b.rect, rep)
+	} else {
+		oracleQueue(kind, p, b.rect, rep)
+	}
 }
 
 // edgeCandidates: vertices, dense samples and the analytic latitude extremum of edge ab,
@@ -133,6 +164,9 @@ func edgeCandidates(a, b s2.Point, dense int) []s2.Point {
 // searchEdgesOfChain: H_LATBOUND on bare chains — float points exactly on an edge must have
 // their computed lat/lng inside RectBound().
 func searchEdgesOfChain(c *vkit.Collector, g *gen, chain []s2.Point, rb s2.Rect) {
+	if rectHasNaN(rb) {
+		return // reported as RectBounder.AddPoint.NaN by bounderTrace
+	}
 	for i := 0; i+1 < len(chain); i++ {
 		a, b := chain[i], chain[i+1]
 		if a.Add(b.Vector).Norm() < 1e-14 { // nearly antipodal: the edge is not well defined; bound must be full
@@ -146,12 +180,18 @@ func searchEdgesOfChain(c *vkit.Collector, g *gen, chain []s2.Point, rb s2.Rect)
 			c.NonTrivial["on-edge "+key(a, b, p)] = true
 			ll := s2.LatLngFromPoint(p)
 			rep := func() map[string]interface{} {
-				return map[string]interface{}{"chain": chainJSON(chain), "p": chainJSON([]s2.Point{p}), "latlng": []float64{float64(ll.Lat), float64(ll.Lng)}, "rect": []float64{rb.Lat.Lo, rb.Lat.Hi, rb.Lng.Lo, rb.Lng.Hi}}
+				return map[string]interface{}{"chain": chainJSON(chain), "p": chainJSON([]s2.Point{p}), "latlng": fs(float64(ll.Lat), float64(ll.Lng)), "rect": fs(rb.Lat.Lo, rb.Lat.Hi, rb.Lng.Lo, rb.Lng.Hi)}
 			}
-			if !rb.ContainsLatLng(ll) {
+			if !rb.ContainsLatLng(ll) && nearPoleBounderKind("RectBounder", p) {
+				violate(c, "RectBounder.latBudget(near-pole)", "a float point exactly on an edge of the chain, within 1e-6 of a pole, has its computed latitude above RectBound()", rep())
+			} else if !rb.ContainsLatLng(ll) {
 				violate(c, "RectBounder.edge-point", "a float point exactly on an edge of the chain has its computed lat/lng outside RectBound()", rep())
 			}
-			oracleQueue("RectBounder.edge-point", p, rb, rep)
+			if nearPoleBounderKind("RectBounder", p) {
+				oracleQueue("RectBounder.latBudget(near-pole)", p, rb, rep)
+			} else {
+				oracleQueue("RectBounder.edge-point", p, rb, rep)
+			}
 		}
 	}
 }
@@ -180,6 +220,12 @@ func searchCap(c *vkit.Collector, g *gen, cp s2.Cap) {
 				checkContained(c, "Cap", b, p, map[string]interface{}{"cap_center": chainJSON([]s2.Point{cp.Center()}), "cap_radius_chord2": s2.VerifC10CapRadius(cp)})
 			}
 		}
+	}
+}
+
+func searchCapPoint(c *vkit.Collector, cp s2.Cap, p s2.Point) {
+	if cp.ContainsPoint(p) {
+		checkContained(c, "Cap", boundsFor(cp), p, map[string]interface{}{"cap_center": chainJSON([]s2.Point{cp.Center()}), "cap_radius_chord2": s2.VerifC10CapRadius(cp)})
 	}
 }
 
@@ -584,8 +630,8 @@ func searchHull(c *vkit.Collector, g *gen, n int) {
 		// input has at least three distinct points)
 		for i := 0; i < m; i++ {
 			s := exactDetSign(hv[i], hv[(i+1)%m], hv[(i+2)%m])
-			if s < 0 || (s == 0 && len(distinct) >= 3 && m > 3) {
-				violate(c, "ConvexHull.convex", fmt.Sprintf("hull turns right or goes straight at vertex %d (exact sign %d)", (i+1)%m, s), rep())
+			if s < 0 { // s == 0 only for exactly collinear triples, decided by the symbolic perturbation
+				violate(c, "ConvexHull.convex", fmt.Sprintf("hull turns right at vertex %d (exact sign %d)", (i+1)%m, s), rep())
 				break
 			}
 		}
